@@ -156,7 +156,7 @@ func (p *Parser) WaitClose() {
 }
 
 func (p *Parser) readRune() rune {
-	r, _, err := p.r.ReadRune()
+	r, size, err := p.r.ReadRune()
 	if p.escTimeout != nil {
 		p.escTimeout.Stop()
 		// The timer may have fired already with its callback still waiting
@@ -166,9 +166,10 @@ func (p *Parser) readRune() rune {
 		p.escGen += 1
 		p.mu.Unlock()
 	}
-	if r == unicode.ReplacementChar {
+	if r == unicode.ReplacementChar && size == 1 {
 		// If invalid UTF-8, let's read the byte and deliver
-		// it as is
+		// it as is. A size of 1 tells an invalid byte from a
+		// well-formed U+FFFD, which is three bytes long
 		err = p.r.UnreadRune()
 		if err != nil {
 			return eof
